@@ -102,7 +102,6 @@ def obligations(cx):
         tpos = [var('tauA') > 0, var('tauB') > 0]
         S1, S2, W2 = thermo.uniquac_residual_reference(X, var('qi1'), var('qi2'), var('tauA'), var('tauB'))
         S1b, S2b, W2b = thermo.uniquac_residual_reference(X, var('qi1'), var('qi2'), var('tauB'), var('tauA'))
-        tb = collect([l1b], lambda n: isinstance(n, T) and n.op == 'exp')
         r1b_g = subst(r1b, gen)
         cx.ob("gamma.UNIQUAC.fingerprint.K1.relabelled-gamma1-is-correct-gamma2", [subst(c, gen) for c in ra.pc + rb.pc] + tpos, bor(eq(r1b_g, S2), eq(r1b_g, S2b)), kind='fingerprint', finding='K1', function=fn,
               statement="gamma_1 of the relabelled mixture is the Abrams-Prausnitz gamma_2 of the original: the asymmetry comes only from the documented wrong bracket of gamma_2")
@@ -183,8 +182,6 @@ def obligations(cx):
     cx.assume_note("solver and process swap lemmas use get_partial_pressures / calculate_partial_fluxes by contract; their own swap lemmas (proved above from the bodies) are applied by rewriting once the argument relation is discharged")
     cx.assume_note("ideal diffusion curves are element-wise calls of calculate_partial_fluxes (C08), so their symmetry is the solver swap lemma")
 
-
-def subst_swap_first(t): return t
 
 
 def replay_case(r):
